@@ -40,6 +40,8 @@ fn commit_of(p: &ShredParts) -> Commit {
     (p.slot, p.slice_index, p.is_last, ref_root(p))
 }
 
+static LAYOUT_MISMATCH: std::sync::atomic::AtomicBool = std::sync::atomic::AtomicBool::new(false);
+
 struct Signed {
     /// commitment -> the leader's genuine signature over it
     sigs: BTreeMap<Commit, [u8; 64]>,
@@ -89,7 +91,12 @@ fn make_slice(rng: &mut SRng, sk: &SecretKey, slot: u64, idx: usize, last: bool,
     let commit = commit_of(&parts[0]);
     signed.sigs.insert(commit, parts[0].sig);
     let cached = shreds[0].commitment();
-    assert_eq!(cached.as_ref(), commit_bytes(&commit).as_slice(), "commitment layout");
+    // the reference derivation (documented Merkle construction) and the crate's commitment normally agree; if a
+    // change to the crate makes them differ, the oracle keeps judging by the reference (what the leader's
+    // signature is supposed to bind) instead of stopping the harness
+    if cached.as_ref() != commit_bytes(&commit).as_slice() {
+        LAYOUT_MISMATCH.store(true, std::sync::atomic::Ordering::Relaxed);
+    }
     SliceSet { slice, shreds, parts, commit, cached }
 }
 
@@ -562,6 +569,9 @@ pub fn run(ctx: &mut Ctx) -> Result<(), String> {
     let it = ctx.iters(640, 60_000);
     for _ in 0..it {
         rt.block_on(tokio::task::unconstrained(blockstore_level(ctx, &mut rng)));
+    }
+    if LAYOUT_MISMATCH.load(std::sync::atomic::Ordering::Relaxed) {
+        ctx.violation("C15 the crate's slice commitment differs from the documented Merkle construction over the same shreds", "reference root != root in ValidatedShred::commitment()", json!(null));
     }
     Ok(())
 }
